@@ -117,10 +117,20 @@ def run_history(repo: Repo, calls, binned: bool = False, keep_table: bool = Fals
         it.objects.clear()
         it.param_dims.clear()
         last = None
-        for k, (fi, specs, dtypes, suffix) in enumerate(calls):
-            kwargs = {name: make_param(it, name, spec, (dtypes or {}).get(name), suffix=suffix) for name, spec in specs.items()}
+        kwargs: dict = {}
+        for k, call_ in enumerate(calls):
+            fi, specs, dtypes, suffix = call_[:4]
+            if len(call_) > 4 and call_[4] == 'same objects, updated in place' and kwargs:
+                # the caller keeps its variables and overwrites their contents between the calls (a bank is moved, a coordinate is
+                # recalibrated): the same objects arrive with new values
+                for name, spec in specs.items():
+                    fresh = make_param(it, name, spec, (dtypes or {}).get(name), suffix=suffix)
+                    v = kwargs[name]
+                    v.term, v.hist, v.mag = fresh.term, fresh.hist, fresh.mag
+            else:
+                kwargs = {name: make_param(it, name, spec, (dtypes or {}).get(name), suffix=suffix) for name, spec in specs.items()}
             try:
-                last = it.call_function(fi, [], kwargs)
+                last = it.call_function(fi, [], dict(kwargs))
             except RaiseSignal:
                 if k < len(calls) - 1:
                     return EARLIER_CALL_RAISED
